@@ -31,12 +31,12 @@ class Magnitude:
             self.error = np.full_like(self.value, self.error)
             
     def _rel_to_abs(self, rele):
-        return self.value*rele/100
+        return abs(self.value)*rele/100     # an uncertainty is not negative, also for a negative value
         
     def _abs_to_rel(self, abse=None):
         if abse is None:
             abse = self.error
-        return 100*abse/self.value
+        return 100*abse/abs(self.value)
         
     @staticmethod
     def parse_string(value, error):
